@@ -164,8 +164,12 @@ def _run(ctx, base):
         mappyfile.dump(d_s, buf, **opts)
         out_fn = os.path.join(base, f"o{ctx.shard}.map")
         ret = mappyfile.save(d_s, out_fn, **opts)
-        with open(out_fn, encoding="utf-8", newline="") as f:
-            s3 = f.read()
+        try:
+            with open(out_fn, encoding="utf-8", newline="") as f:
+                s3 = f.read()
+        except UnicodeDecodeError as ex:
+            res.violation("saved-file-is-not-utf-8", dict(case, options=opts), str(ex)[:200], "the characters dumps returns, UTF-8 encoded")
+            continue
         if not (s1 == buf.getvalue() == s3):
             res.violation("save-dump-dumps-differ", dict(case, options=opts), [h(s1), h(buf.getvalue()), h(s3)], None)
         if ret != out_fn:
